@@ -428,6 +428,10 @@ def row_matches(facts, rl, inv, ref, row, role_refs=()):
                 # any(!hexdigit) true | len % 2 != 0   -- details are checked by C12 HEX-GUARD
                 kinds = sorted(t[0] for t in trigs)
                 ok = kinds in (["cmp", "pred"], ["any", "cmp"], ["all", "cmp"])
+                # validation of all values up front: `!values().all(valid)` (what `valid` tests: C12 HEX-GUARD, prevalidated)
+                if not ok and len(trigs) == 1:
+                    t = next(iter(trigs))
+                    ok = t[0] == "pred" and t[1] == "std::iter::Iterator::all" and t[-1] is False
             if ok:
                 hits = list(trigs)
         if hits is None:
